@@ -17,7 +17,7 @@ Definition ho_errcloser_close_once : bool := true.
 Definition ho_iter_wraps_response : bool := true.
 Definition ho_iter_closes_on_error_return : bool := true.
 Definition ho_unmarshal_closes_on_return : bool := true.
-Definition ho_responder_close_tolerates_second_call : bool := false.
+Definition ho_responder_close_tolerates_second_call : bool := true.
 Definition ho_receipts_chan_capacity : nat := 1.
 Definition ho_receipts_sender_close_calls : nat := 0.
 Definition ho_receipts_sender_delete_calls : nat := 2.
